@@ -134,6 +134,16 @@ class _Handle:
         return self.tf.text if self.site in ("frame", "nobody") else self.holder.text
 
     def observe(self) -> dict:
+        try:
+            return self._observe()
+        except Exception:       # noqa: BLE001  a reader that raises reads nothing: the tree is still projected, the readers are "unknown"
+            try:
+                body = project_body(self.shape._element)
+            except Exception:   # noqa: BLE001
+                body = []
+            return {"body": body, "rd": {"frame": [UNKNOWN], "paras": [[UNKNOWN] for _ in body], "runs": [[] for _ in body]}}
+
+    def _observe(self) -> dict:
         paras = self.tf.paragraphs
         return {"body": project_body(self.shape._element),
                 "rd": {"frame": classify(self.read_frame()),
@@ -223,12 +233,19 @@ def _run_batch(scns, seed, stop_at_reopen=False, xsd=False):
     hs, traces, pos, last, rngs, used = [], [], [], [], [], set()
     for k, sc in enumerate(scns):
         h = _Handle(sc["site"], _new_container(slide, sc["site"], k))
+        built = "ok"
         for a in sc["build"]:                                # the prior body: builder strings are not varied (variant 0)
-            h.apply(a, to_concrete(a["s"]) if "s" in a else None)
+            try:
+                h.apply(a, to_concrete(a["s"]) if "s" in a else None)
+            except Exception as e:                           # a builder is a public call like any other: recorded, the scenario ends there
+                built = type(e).__name__
+                break
         o = h.observe()
         hs.append(h)
         traces.append({"id": sc["id"], "site": sc["site"], "prior": sc["prior"], "pre": o, "steps": []})
-        pos.append(0)
+        if built != "ok":
+            traces[-1]["steps"].append({"a": {"op": "BuildPrior"}, "out": built, "same": True, "t": []})
+        pos.append(0 if built == "ok" else len(sc["acts"]))
         last.append(o)
         rngs.append(_rng(seed, sc["id"]))
     mon = {}
